@@ -37,7 +37,7 @@ var (
 // in-memory listener; requests are routed by Host to registered handlers. Unknown hosts get connection refused.
 func InstallMemNet() {
 	netOnce.Do(func() {
-		netLis = bufconn.Listen(1 << 20)
+		netLis = bufconn.Listen(64 << 10)
 		tr := http.DefaultTransport.(*http.Transport)
 		tr.DialContext = func(ctx context.Context, network, addr string) (net.Conn, error) {
 			host := addr
@@ -67,6 +67,9 @@ func InstallMemNet() {
 			}
 			h.ServeHTTP(w, r)
 		})}
+		// every handler of the service builds its own http.Transport; with keep-alive each of them would leave an idle
+		// connection (and its buffers) behind until the idle time-out - millions of them in a long search
+		srv.SetKeepAlivesEnabled(false)
 		go func() { _ = srv.Serve(netLis) }()
 	})
 }
@@ -138,6 +141,10 @@ type FilterSpec struct {
 	Logout       bool   `json:"logout,omitempty"`
 	ViaOverride  bool   `json:"via_override,omitempty"` // written as oidc_override over a default_oidc_config (shared id_token/logout/scopes)
 	TokenLife    int    `json:"token_life,omitempty"`   // seconds the realm's tokens live (default 3600; real clock)
+	// MocksBefore / MocksAfter: mock filters (allow flags) in the chain before / after the OIDC filter
+	RedisPassword string `json:"redis_password,omitempty"` // the Redis server requires this password; it is part of server_uri
+	MocksBefore []bool `json:"mocks_before,omitempty"`
+	MocksAfter  []bool `json:"mocks_after,omitempty"`
 }
 
 type SWorld struct {
@@ -233,6 +240,11 @@ func NewSWorld(filters []FilterSpec, extra map[string]any) (*SWorld, error) {
 				sw.Redis[name] = mr
 			}
 			uri := "redis://" + mr.Addr()
+			if f.RedisPassword != "" {
+				// server_uri with credentials (the usual way to give go-redis a password)
+				mr.RequireAuth(f.RedisPassword)
+				uri = "redis://:" + f.RedisPassword + "@" + mr.Addr()
+			}
 			if strings.Contains(f.Redis, "/") {
 				uri += fmt.Sprintf("/%d", db)
 			}
@@ -242,8 +254,15 @@ func NewSWorld(filters []FilterSpec, extra map[string]any) (*SWorld, error) {
 		if f.ViaOverride {
 			kind = "oidc_override"
 		}
-		chains = append(chains, map[string]any{"name": f.Name, "match": map[string]any{"header": "x-tenant", "equality": f.Name},
-			"filters": []any{map[string]any{kind: o}}})
+		var fl []any
+		for _, al := range f.MocksBefore {
+			fl = append(fl, map[string]any{"mock": map[string]any{"allow": al}})
+		}
+		fl = append(fl, map[string]any{kind: o})
+		for _, al := range f.MocksAfter {
+			fl = append(fl, map[string]any{"mock": map[string]any{"allow": al}})
+		}
+		chains = append(chains, map[string]any{"name": f.Name, "match": map[string]any{"header": "x-tenant", "equality": f.Name}, "filters": fl})
 	}
 	doc["chains"] = chains
 	for k, v := range extra {
